@@ -347,6 +347,56 @@ def _const_string(prog, f, v):
     return None
 
 
+def final_pass_rule(chk, prog):
+    """K1-finalpass (a belief rule): canonicalize_name rewrites the string in place and then hands it to a clean-up pass of
+    its own unit (normalize_slashes).  That the pass is there says the rewrite can leave something behind (a separator in
+    front of a dropped component).  If it runs on some way from the rewrite to the success return, it runs on all of them: a
+    condition under which it is skipped is a claim about the rewrite's output that nothing checks."""
+    from ..errflow import ret_sources
+    f = prog.need_fn("canonicalize_name")
+    f.build()
+    n = 0
+    par = f.params[0]
+    # blocks that write into the buffer (the rewrite)
+    rewrite = set()
+    for i in f.insts():
+        if i.op == "store" and any(x is par for x in backward_slice(i.ops[1], phi_control=False)):
+            if any(i.bb in l[1] for l in f.loops):
+                rewrite.add(i.bb)
+    succ_ret = {b for (v, b) in ret_sources(f) if strip_casts(v).is_const and strip_casts(v).is_int and strip_casts(v).sval == 0}
+
+    def reach(starts, avoid=()):
+        seen, work = set(), list(starts)
+        while work:
+            b = work.pop()
+            if b in seen or b in avoid:
+                continue
+            seen.add(b)
+            work.extend(b.succs)
+        return seen
+    for c in f.calls():
+        g = prog.fn(c.callee, f.unit) if c.callee else None
+        if g is None or g.decl or g.unit is not f.unit or not c.ops:
+            continue
+        if not any(x is par for x in backward_slice(c.ops[0], phi_control=False)):
+            continue
+        after = reach(rewrite)
+        if c.bb not in after or not (reach([c.bb]) & succ_ret):
+            continue            # the pass in front of the rewrite
+        n += 1
+        chk.analysed(f)
+        inst = "%s:%s@%d" % (f.name, g.name, c.line)
+        skipped = reach(rewrite, avoid={c.bb}) & succ_ret
+        # a success return inside the avoiding set must not be reachable only through c.bb
+        if not skipped:
+            chk.ok("K1-finalpass", inst, c, "every way from the rewrite to the success return passes the clean-up pass")
+        else:
+            chk.violation("K1-finalpass", inst, c, "%s runs on some ways from the in-place rewrite to the success return and is "
+                          "skipped on others: the string is handed back in the shape the rewrite left it in (a separator in front "
+                          "of a dropped '.' survives, the result is not canonical and not idempotent)" % g.name)
+    return n
+
+
 def run(chk):
     chk.explanation = (
         "Funnel and data-independence rules for the two path-string functions, decided on LLVM IR: (F1) the verdict of "
@@ -359,13 +409,15 @@ def run(chk):
         "itself (exactly-when '..', idempotence, never grows) is value-level and not decided. In the tar iterator every use "
         "of the member name (pattern matching included) lies behind the accepting edge of canonicalize_name, on feasible "
         "paths; the unpack side (rdsquashfs): tree walks gate their own node's name, image-derived paths come from "
-        "get_path + canonicalize_name (the rules of C06, looking through copies and hand-filled buffers).")
+        "get_path + canonicalize_name (the rules of C06, looking through copies and hand-filled buffers). K1-finalpass: the clean-up pass canonicalize_name applies to its own output runs on every way from the in-place rewrite to the success return or on none.")
     chk.assumptions = [
                        "value-level relation of canonicalize_name (rejects exactly '..' components, idempotent) is not decided"]
     progs = {t: load_program(t) for t in ("gensquashfs", "tar2sqfs", "rdsquashfs", "sqfs2tar", "sqfsdiff")}
     n = funnel_results(chk, progs)
     funnel_dominance(chk, progs)
     data_independence(chk, progs["rdsquashfs"])
+    final_pass_rule(chk, progs["rdsquashfs"])
+    chk.floor("K1-finalpass", 1)
     # the unpack side: every tree walk that reaches the file system gates its own node's name, image-derived paths come
     # from get_path + canonicalize_name only (the rules of C06, run here for the funnel property itself)
     from .c06 import PathSinks, name_gate_rule, sanitiser_rule
